@@ -83,6 +83,11 @@ PINNED_SWITCH_CROSSING = {"engine": "exc_basic", "kind": "family", "driver": "re
 PINNED_DEGENERATE_EXCITED = {"engine": "exc_basic", "kind": "family", "driver": "real", "batch": ["ch4"], "distort": 0.15, "geom_seed": 7, "dt": 0.5, "steps": 30, "scf_eps": 1e-10, "temp": 300.0, "n_states": 3, "active_state": 1, "variants": ["reuse_off", "cadence_mix"], "com_stride": 1}
 
 
+# two fragments, AM1-FS1 dispersion switched on, dynamics on S1 (analytical excited-state gradient): the dispersion force must
+# be counted exactly once by every gradient path (seeded change c08f counted it twice on excited states only)
+PINNED_DISPERSION_EXCITED = {"engine": "exc_basic", "kind": "family", "driver": "real", "batch": ["h2co_h2"], "dispersion": True, "method": "AM1", "dt": 0.4, "steps": 20, "scf_eps": 1e-10, "temp": 300.0, "n_states": 3, "active_state": 1, "variants": [], "com_stride": 1}
+
+
 def gen(rng, tier, i):
     real_frac = 0.03 if tier == "quick" else 0.06
     u = rng.random()
@@ -560,6 +565,7 @@ class C08(core.Check):
         # pinned family: excited-state BOMD of methane (triply degenerate HOMO: the members change energetic order along
         # the trajectory, which exercises the orbital tracking between steps)
         recs[2] = {"i": 2, "cfg": dict(PINNED_DEGENERATE_EXCITED, cad=recs[2]["cfg"]["cad"], seed=recs[2]["cfg"]["seed"], rotate=recs[2]["cfg"].get("rotate") or 12345)}
+        recs[3] = {"i": 3, "cfg": dict(PINNED_DISPERSION_EXCITED, cad=recs[3]["cfg"]["cad"], seed=recs[3]["cfg"]["seed"], rotate=recs[3]["cfg"].get("rotate") or 2468)}
         return recs
 
     def shrink_candidates(self, rec):
